@@ -421,7 +421,9 @@ func runC07(c *rt.Ctx) {
 		// arguments far larger than a calendar unit: day numbers turned into dates (Add(0, 0, n)), month and year counts
 		// of the same magnitude, alone and mixed. Values beyond the platform's int are skipped.
 		big := []int64{106750, 106751, 106752, 106753, 110000, 146096, 146097, 146098, 292194, 365242, 730485, 737999, 1000000, 3652424, 3652425, 36524250, 2147483647}
-		fits := func(v int64) bool { return strconv.IntSize == 64 || (v >= -2147483648 && v <= 2147483647) }
+		// (time.AddDate adds its arguments to the day, month and year in int: on a 32-bit platform counts within a
+		// thousand of the int range overflow inside package time, which "time.AddDate-style normalisation" includes)
+		fits := func(v int64) bool { return strconv.IntSize == 64 || (v >= -2147482647 && v <= 2147482647) }
 		bases := append([]int64{}, F...)
 		for i := 0; i < len(B); i += 9 {
 			bases = append(bases, B[i])
